@@ -295,7 +295,7 @@ func (e *env) emit(evs ...trace.Ev) {
 func main() {
 	out := flag.String("out", ".", "output directory")
 	seed := flag.Int64("seed", 1, "seed")
-	mode := flag.String("mode", "dl", "dl | sync | msg | gossip")
+	mode := flag.String("mode", "dl", "dl | sync | msg | gossip | bft | pos")
 	amax := flag.Int("amax", 4, "dl: largest divergence height")
 	deep := flag.Bool("deep", false, "thorough tier: more scenarios, long chains")
 	pairs := flag.Int("pairs", 12, "sync: number of concurrent node pairs")
@@ -306,8 +306,14 @@ func main() {
 	must(err)
 	defer os.RemoveAll(tmp)
 	// validators 0..2 are authorities (2 never signs), 7 is the master of the syncing nodes, 8/9 send/receive txs
-	net := sim.NewNet(sim.Options{Validators: 3, Nodes: 1, EpochLength: 1_000_000, ExtraAccts: 7,
-		LaunchTime: sim.DefaultLaunch + uint64(*seed%1000)*thor.BlockInterval()})
+	opts := sim.Options{Validators: 3, Nodes: 1, EpochLength: 1_000_000, ExtraAccts: 7,
+		LaunchTime: sim.DefaultLaunch + uint64(*seed%1000)*thor.BlockInterval()}
+	if *mode == "bft" || *mode == "pos" {
+		// finality matters: 4 validators that all run a (simulator) node, epochs of 3 blocks; "pos": staking from genesis
+		opts = sim.Options{Validators: 4, Nodes: 4, EpochLength: 3, ExtraAccts: 6, PoS: *mode == "pos",
+			LaunchTime: sim.DefaultLaunch + uint64(*seed%1000)*thor.BlockInterval()}
+	}
+	net := sim.NewNet(opts)
 	e := &env{net: net, tmp: tmp, rng: rand.New(rand.NewSource(*seed)), w: &trace.Writer{},
 		names: trace.NewInterner("b"), stats: map[string]any{}, trunk: []*block.Block{net.B0}, br: map[string][]*block.Block{}}
 
@@ -320,6 +326,8 @@ func main() {
 		e.runMessages(*nrand)
 	case "gossip":
 		e.runGossip(*deep)
+	case "bft", "pos":
+		e.runBFT(*mode, *deep)
 	default:
 		fail("unknown mode %s", *mode)
 	}
